@@ -57,7 +57,7 @@ CHECKS = {
               "candidates plus padding; reverse CSR rows are zeroed at exactly the dropped positions for ANY sorting permutation and storage "
               "order; probability 0 removes nothing; the pinned dense CSR variant is refuted by a computed witness. All four compiled kernels "
               "are compared with the extracted model on one thread, generator state included, and the specification is re-evaluated on their outputs; the search graph of dense and sparse indexes rebuilt over one exact neighbour graph is compared with the "
-              "specification for diversify_prob 0 and 1 (one known finding: the reverse pass of _init_search_graph is applied to a transposed view - C15_index_reverse_pass_refuted, witness replayed on the real index every run, KNOWN_FINDINGS.jsonl)."),
+              "specification for diversify_prob 0 and 1 (this stream found the reverse pass of _init_search_graph running over a transposed view: repaired by fix 2161492; the pinned wiring is refuted by C15_index_reverse_pass_refuted and the witness is replayed on the real index every run)."),
         design_ref="6.15",
         note=LEVEL_NOTE_COMMON + " Probability-1 theorems assume the generator never returns 1.0f (C15_tau_rand_can_return_one shows a state where it does).",
     ),
